@@ -40,6 +40,9 @@ def cases(tier, seed):
                 if tier == 'quick' and p['head'] != 'flatlin':
                     continue
                 out.append({'prog': p, 'a': list(a), 'w': list(w), 'tier': tier, 'sweep': True})
+    for p in GM.gen_fcn(1 if tier == 'quick' else 2):
+        for a, w in (((2, 4, 8), (2, 4, 8)), ((8, 4), (4, 2, 8))):
+            out.append({'prog': p, 'a': list(a), 'w': list(w), 'tier': tier})
     for p in GM.gen(2 if tier == 'quick' else 3):
         for a, w in (((2, 4, 8), (2, 4, 8)), ((8, 4, 2), (4, 8)), ((4, 8), (8, 2, 4))):
             if len(p['stages']) == 1 and not any(k in s for s in p['stages'] for k in ('bias', 'k', 's', 'act', 'cout')) and not p.get('head_bn'):
